@@ -506,7 +506,8 @@ func newEmitter(cap int, gen bool) *asm.Emitter {
 	if cap < 0 {
 		return asm.NewEmitter(nil, gen)
 	}
-	return asm.NewEmitter(make([]byte, cap), gen)
+	// the target's capacity is larger than its length: only the LENGTH is the emitter's capacity
+	return asm.NewEmitter(make([]byte, cap, cap+37), gen)
 }
 
 func (x *emitExec) run(sc scenarioT) {
@@ -529,13 +530,14 @@ func (x *emitExec) run(sc scenarioT) {
 			if cp < 0 {
 				x.ems[1] = x.ems[0].Clone(nil)
 			} else {
-				x.ems[1] = x.ems[0].Clone(make([]byte, cp))
+				x.ems[1] = x.ems[0].Clone(make([]byte, cp, cp+11))
 			}
 			x.emit(map[string]interface{}{"k": "clone", "id": 1, "from": 0, "cap": cp})
 			x.stateEvent(1, "clone")
 			x.stateEvent(0, "clone")
 			cur = 1
 		case "Append":
+			x.stateEvent(0, "preappend") // the original must be unaffected by anything done to the clone so far
 			pan := guard(func() { x.ems[0].Append(x.ems[1]) })
 			x.emit(map[string]interface{}{"k": "append", "id": 0, "from": 1, "refused": pan != ""})
 			x.stateEvent(0, "append")
